@@ -39,6 +39,15 @@ func (rn *runner) do(sc scenario, tie *lib.Tie) {
 	if rn.rng != nil && r.Variant != "waste" {
 		sc.NInit = pickInit(rn.rng, len(sc.IDs))
 	}
+	if sc.Icpt != "" && sc.NInit > 0 {
+		// NewCollection does not pass the ids of initial records through the interceptor: they are configured in
+		// their normalised spelling (props/C15.json, assumptions)
+		ids := append([]string(nil), sc.IDs...)
+		for i := 0; i < sc.NInit; i++ {
+			ids[i] = icptFn(sc.Icpt)(ids[i])
+		}
+		sc.IDs = ids
+	}
 	res, err := sc.run()
 	if err != nil {
 		rn.mon.Error = err.Error()
@@ -49,7 +58,14 @@ func (rn *runner) do(sc scenario, tie *lib.Tie) {
 		ncalls += len(p)
 	}
 	nontrivial := ncalls > 1 || len(res.coll) > 0
-	key := fmt.Sprintf("%s|%d|%v|%s|%v|%v|%v|%v|%d|%d", sc.RPC, len(sc.IDs), sc.Sizes, sc.Token, sc.Delete, sc.Mask, sc.Ops, sc.Warm, sc.Passes, sc.NInit)
+	key := fmt.Sprintf("%s|%d|%v|%s|%v|%v|%v|%v|%d|%d|%s|%v", sc.RPC, len(sc.IDs), sc.Sizes, sc.Token, sc.Delete, sc.Mask, sc.Ops, sc.Warm, sc.Passes, sc.NInit, sc.Icpt, sc.Inflight)
+	if sc.Icpt != "" {
+		key += "|" + strings.Join(sc.IDs, "\x00")
+		tie.Count("interceptor:" + sc.Icpt)
+	}
+	if sc.Inflight != nil {
+		tie.Count("inflight:" + sc.Inflight.Kind + ":" + res.inflight)
+	}
 	rn.mon.Eval(key, nontrivial, sc.summary())
 	rn.mon.Count("class:" + sc.Class)
 	if sc.Mask != nil {
@@ -153,12 +169,12 @@ func main() {
 	res := lib.NewResult("C15", f)
 	rn := &runner{f: f}
 	rn.small = res.Tie("paging-small-exhaustive", "K2",
-		"every collection over the id pool {a,ab,b} (waste: 0..3 records), built through the creation API and as initial records, x page size {-2,-1,0,1,2,3} x starting token {empty, last key in {'',a,aa,ab,b,c}, undecodable text, undecodable bytes} (waste: {empty,0..4,-1,text,overflow}) on each of the seven RPCs, with and without a read mask hiding the key, chain followed to its end; plus every sequence of <= 2 store operations over the full alphabet (ids a, b, empty; generated ids; parent AddChild/AddChildTrait; Update* with create-if-absent, with update masks naming / leaving out the key field; publication updates with the id in the message, without it, and with a FOREIGN id; deletes with and without allow-missing; the trait servers' own Create/Update/Delete/AcknowledgePublication/Dispense RPCs) on a collection {a}, then two passes of one-item and default-size pages; plus every non-empty collection over 5 long / odd ids (35, 35, 304, 40 bytes; control, base64 and URL characters) through every creation route (initial records, creation API, create-if-absent updates, AddChild/AddChildTrait), one- and two-item pages from the start and from a token; every construction step, op outcome, the listing (key fields in Collection.List order vs rlisting) and every List call compared with the Lean model; distinct = (rpc, |ids|, size, decoded token, key visible) / (rpc, op kind and options, outcome)")
+		"every collection over the id pool {a,ab,b} (waste: 0..3 records), built through the creation API and as initial records, x page size {-2,-1,0,1,2,3} x starting token {empty, last key in {'',a,aa,ab,b,c}, undecodable text, undecodable bytes} (waste: {empty,0..4,-1,text,overflow}) on each of the seven RPCs, with and without a read mask hiding the key, chain followed to its end; plus every sequence of <= 2 store operations over the full alphabet (ids a, b, empty; generated ids; parent AddChild/AddChildTrait; Update* with create-if-absent, with update masks naming / leaving out the key field; publication updates with the id in the message, without it, and with a FOREIGN id; deletes with and without allow-missing; the trait servers' own Create/Update/Delete/AcknowledgePublication/Dispense RPCs) on a collection {a}, then two passes of one-item and default-size pages; plus every non-empty collection over 5 long / odd ids (35, 35, 304, 40 bytes; control, base64 and URL characters) through every creation route (initial records, creation API, create-if-absent updates, AddChild/AddChildTrait), one- and two-item pages from the start and from a token; plus models built with resource.WithIDInterceptor (ASCII lower / upper casing): every non-empty collection over {a, B, Ab} (storage-id order differs from spelling order) through the creation API and as (normalised) initial records x page size {1,2,0} x tokens for every spelling, and every sequence of <= 2 store ops over the spellings {a, B} on a collection {A}; plus a REFUSED write (Update* of an existing / absent id with and without create-if-absent, Delete*, waste AddWasteRecord) parked in its WithExpectedCheck callback during the unpaged listing and every List call of two passes; every construction step, op outcome, the listing (key fields in Collection.List order vs rlisting) and every List call compared with the Lean model; distinct = (rpc, |ids|, size, decoded token, key visible) / (rpc, op kind and options, outcome)")
 	rn.small.Exhaustive = true
 	rn.tie = res.Tie("paging-scenarios", "K1",
-		"structured random paging scenarios from one PRNG: collection sizes 0-60/49,50,51/999-1001, page sizes {-5..0,1,2,3,7,50,1000,5000,random} fixed or varying per page, prefix-related and multi-byte ids, hostile tokens (bit flips, truncation, base64 of random bytes, tokens for deleted/absent keys, other oneof member, unknown fields, repeated field, other listers' tokens, URL/raw alphabets, embedded newlines, out-of-range indices), long ids (to ~600 bytes, shared long prefixes) and ids with control/base64/URL characters, each collection built through a random split of initial records and creation API, collections built by random histories of the models' creation/update/deletion APIs and the servers' CRUD RPCs (create-if-absent, update masks, foreign ids, allow-missing), 2-3 passes over one model, arbitrary warm-up List calls before the chain; every op outcome, listing and List call compared with the Lean model; distinct = (rpc, |ids|, size, decoded token, key visible)")
+		"structured random paging scenarios from one PRNG: collection sizes 0-60/49,50,51/999-1001, page sizes {-5..0,1,2,3,7,50,1000,5000,random} fixed or varying per page, prefix-related and multi-byte ids, hostile tokens (bit flips, truncation, base64 of random bytes, tokens for deleted/absent keys, other oneof member, unknown fields, repeated field, other listers' tokens, URL/raw alphabets, embedded newlines, out-of-range indices), long ids (to ~600 bytes, shared long prefixes) and ids with control/base64/URL characters, each collection built through a random split of initial records and creation API, collections built by random histories of the models' creation/update/deletion APIs and the servers' CRUD RPCs (create-if-absent, update masks, foreign ids, allow-missing), 2-3 passes over one model, arbitrary warm-up List calls before the chain, a quarter of these with a refused write in flight throughout; models with a case-mapping id interceptor and mixed-case ids (distinct under the interceptor), histories over re-spellings of them, tokens in other spellings; every op outcome, listing and List call compared with the Lean model; distinct = (rpc, |ids|, size, decoded token, key visible)")
 	rn.mon = res.Monitor("paging-property",
-		"per scenario, oracle = ids sorted bytewise (waste: reverse insertion order) filtered by the harness's own decoding of the starting token: the collection expected after the store ops comes from the harness's own set oracle; no listed key is empty; unpaged listing = oracle; no panic; negative size and malformed token answered by an error; otherwise no error, |page| <= min(size or 50, 1000), total_size = |items| on every page (the trailing empty one included), empty token reached within |items|+1 pages, concatenation = listing, on EVERY pass over the same model; the listing is unchanged after all List calls; non-trivial = non-empty collection or more than one call")
+		"per scenario, oracle = ids sorted bytewise (waste: reverse insertion order) filtered by the harness's own decoding of the starting token: the collection expected after the store ops comes from the harness's own set oracle (with an id interceptor: a map from intercepted id to the key field as last written; the unpaged listing must be those fields in intercepted-id order, the pages those fields in bytewise order); a refused write in flight during the List calls must end refused and leave the listing as it was; no listed key is empty; unpaged listing = oracle; no panic; negative size and malformed token answered by an error; otherwise no error, |page| <= min(size or 50, 1000), total_size = |items| on every page (the trailing empty one included), empty token reached within |items|+1 pages, concatenation = listing, on EVERY pass over the same model; the listing is unchanged after all List calls; non-trivial = non-empty collection or more than one call")
 	codecTie := res.Tie("token-codec", "K1",
 		"token encode/decode identity on the six key-token RPCs: a one-item collection whose key is an ARBITRARY byte string (22 edge cases: NUL, 1-4 byte runes, BOM, overlong forms, surrogates, > U+10FFFF, truncated sequences; random runes; random bytes); page 1 mints a token from the key, the harness decodes it with its own base64(std)+proto reader, call 2 uses it (keys of 1-8 bytes and of 21-320 bytes; the item comes from the creation API or is an initial record; the monitor requires that the server accepts the token it has just issued). Model: the key is a String (valid UTF-8) and the token carries it unchanged, or the bytes are not a String ('invalid': proto.Marshal refuses the token, the RPC answers Unknown); distinct = (rpc, bytes)")
 	discTie := res.Tie("lister-discovery", "K3",
@@ -185,6 +201,8 @@ func main() {
 	rn.smallExhaustive()
 	rn.smallOps()
 	rn.smallLong()
+	rn.smallIcpt()
+	rn.smallInflight()
 	rn.flush()
 	rn.rng = rng
 	rn.random(rng)
@@ -404,6 +422,81 @@ func (rn *runner) smallLong() {
 	}
 }
 
+// smallIcpt: collections with an id interceptor (ASCII lower / upper casing). Every collection over the pool
+// {a, B, Ab} - storage-id order (a, ab, b) and key-field order (Ab, B, a) differ - through every creation route,
+// paged from the start and from a token for every spelling; and every sequence of <= 2 store ops over the
+// spellings {a, B} on a collection holding {A}.
+func (rn *runner) smallIcpt() {
+	pool := []string{"a", "B", "Ab"}
+	toks := []string{"", encodeKeyToken("a"), encodeKeyToken("B"), encodeKeyToken("Ab"), encodeKeyToken("b"), encodeKeyToken("AB")}
+	for _, rp := range rpcs() {
+		if rp.Variant == "waste" {
+			continue
+		}
+		for _, icpt := range []string{"lower", "upper"} {
+			for mask := 1; mask < 8; mask++ {
+				var ids []string
+				for i, p := range pool {
+					if mask&(1<<i) != 0 {
+						ids = append(ids, p)
+					}
+				}
+				for _, s := range []int32{1, 2, 0} {
+					for _, t := range toks {
+						for _, ninit := range []int{0, len(ids)} {
+							rn.do(scenario{RPC: rp.Name, IDs: ids, NInit: ninit, Sizes: []int32{s}, Token: t, Icpt: icpt, Class: "small-interceptor"}, rn.small)
+						}
+					}
+				}
+			}
+		}
+		alpha := opAlphabet(rp, []string{"a", "B"}, []string{"B", "c"})
+		var seqs [][]storeOp
+		for _, o1 := range alpha {
+			seqs = append(seqs, []storeOp{o1})
+			for _, o2 := range alpha {
+				seqs = append(seqs, []storeOp{o1, o2})
+			}
+		}
+		for _, ops := range seqs {
+			rn.do(scenario{RPC: rp.Name, IDs: []string{"A"}, Ops: ops, Sizes: []int32{1}, Passes: 2, Icpt: "lower", Class: "small-interceptor-ops"}, rn.small)
+		}
+	}
+}
+
+// smallInflight: a refused write parked in its expected-check callback while the client pages: waste
+// AddWasteRecord over 0..3 records; the Update* (existing id, absent id with and without create-if-absent) and
+// Delete* of the other models over every collection within {a, b}.
+func (rn *runner) smallInflight() {
+	for _, rp := range rpcs() {
+		if rp.Variant == "waste" {
+			for n := 0; n <= 3; n++ {
+				for _, s := range []int32{1, 2, 0} {
+					for _, t := range []string{"", "1", "2"} {
+						rn.do(scenario{RPC: rp.Name, IDs: []string{"r0", "r1", "r2"}[:n], Sizes: []int32{s}, Token: t, Passes: 2,
+							Inflight: &guardedWrite{Kind: "add", ID: "never-added"}, Class: "small-inflight"}, rn.small)
+					}
+				}
+			}
+			continue
+		}
+		for _, ids := range [][]string{{}, {"a"}, {"b"}, {"a", "b"}} {
+			ws := []guardedWrite{{Kind: "delete", ID: "a"}, {Kind: "delete", ID: "c"}}
+			if rp.Upd != nil {
+				ws = append(ws, guardedWrite{Kind: "update", ID: "a"}, guardedWrite{Kind: "update", ID: "c"},
+					guardedWrite{Kind: "update", ID: "a", Upsert: true}, guardedWrite{Kind: "update", ID: "c", Upsert: true},
+					guardedWrite{Kind: "update", ID: "0", Upsert: true})
+			}
+			for _, w := range ws {
+				w := w
+				for _, s := range []int32{1, 0} {
+					rn.do(scenario{RPC: rp.Name, IDs: ids, Sizes: []int32{s}, Passes: 2, Inflight: &w, Class: "small-inflight"}, rn.small)
+				}
+			}
+		}
+	}
+}
+
 // hideKey is a valid read mask that does not mention the key field.
 func hideKey(r rpc) []string {
 	if r.Wit != "" {
@@ -589,6 +682,59 @@ func (rn *runner) random(r *rand.Rand) {
 			}
 			sc.Warm = append(sc.Warm, w)
 			sc.Class = "passes+warm-up"
+		}
+		if r.Intn(4) == 0 {
+			// a refused write in flight during all of it
+			w := guardedWrite{Kind: "delete", ID: genID(r)}
+			if n > 0 && r.Intn(2) == 0 {
+				w.ID = ids[r.Intn(n)]
+			}
+			switch {
+			case rp.Variant == "waste":
+				w.Kind = "add"
+			case rp.Upd != nil && r.Intn(3) > 0:
+				w.Kind, w.Upsert = "update", r.Intn(2) == 0
+			}
+			sc.Inflight = &w
+			sc.Class += "+inflight"
+		}
+		rn.do(sc, rn.tie)
+	}
+	// 7. collections with an id interceptor: mixed-case ids (distinct under the interceptor), histories of the
+	// creation / update / deletion APIs over re-spellings of them
+	for i := 0; i < rn.f.N(300, 3000); i++ {
+		rp := all[r.Intn(len(all))]
+		if rp.Variant == "waste" {
+			continue
+		}
+		icpt := []string{"lower", "upper"}[r.Intn(2)]
+		n := r.Intn(14)
+		if i%5 == 0 {
+			n = 40 + r.Intn(25)
+		}
+		base := genCaseIDs(r, n, nil)
+		sc := scenario{RPC: rp.Name, IDs: base, Icpt: icpt, Sizes: []int32{1 + genPageSize(r)%5}, Mask: keyMask(r, rp), Class: "interceptor"}
+		if r.Intn(2) == 0 {
+			pool := genCaseIDs(r, 1+r.Intn(5), base)
+			for _, id := range base {
+				if r.Intn(2) == 0 {
+					pool = append(pool, respell(r, id))
+				}
+			}
+			alpha := opAlphabet(rp, pool, append(genCaseIDs(r, 2, nil), pool[r.Intn(len(pool))]))
+			for j := 0; j < 1+r.Intn(10); j++ {
+				sc.Ops = append(sc.Ops, alpha[r.Intn(len(alpha))])
+			}
+			sc.Class = "interceptor+store-ops"
+		}
+		switch {
+		case n > 0 && r.Intn(3) == 0:
+			sc.Token = encodeKeyToken(respell(r, base[r.Intn(n)]))
+		case n > 0 && r.Intn(3) == 0:
+			sc.Token = encodeKeyToken(base[r.Intn(n)])
+		}
+		if r.Intn(3) == 0 {
+			sc.Passes = 2
 		}
 		rn.do(sc, rn.tie)
 	}
